@@ -110,6 +110,20 @@ CLAIMS = {
         "of the threshold. Concurrency of the tenant bucket (refund window) is not covered by this run. Trusted: Lean kernel, hand "
         "model validated by correspondence, virtual clock shim.",
    design="§3 C19"),
+ "C15": dict(
+   engine="validate+persist",
+   technique="Lean 4 proof (validators/search planner total and exact for every request value; refusal => no effect via the persistence invariant) + differential correspondence",
+   text="Theorems C15_oversampling_total_pos (the selectivity estimate terminates on every filter tree and lies in [1,50]: the divisor "
+        "in 50/inner is never 0), C15_plan_bounds (1 <= k <= search_k <= 10000, ef in [1,10000]), C15_search_validator_decides and "
+        "C15_insert_validator_decides (accept <=> the documented field ranges), C15_refused_no_effect (a refused durable write "
+        "issues no file-system action and leaves live and recovered documents unchanged after any history). Tie: 6k (quick) "
+        "structurally generated requests through the real validate_search_request / validate_insert_request / "
+        "calculate_oversampling_factor vs the model + contract oracle; persist histories with every invalid-input class and "
+        "recovery after each op.",
+   note="Partial: the RPC glue of kyrodb_server (prost decoding, streaming handlers, per-item failures, panic containment, "
+        "liveness after bad requests) is not modelled; non-finite vectors on the streaming write paths are refused by the engine "
+        "pre-flight since fix d09e19e (before: after the log append). Trusted: Lean kernel, hand models validated by correspondence.",
+   design="§3 C15"),
 }
 
 NOT_APPLICABLE = {
